@@ -9,6 +9,7 @@ R06b  every selector that reaches gethandler() went through slashnormalize(), an
 R06c  search strings / selectors are decoded with the transport's convention
       (UTF-8, surrogateescape) in every protocol
 R06e  the URL-based renderers link to this server exactly for entries without host and port
+R06f  unset host/port/type are completed the same way in Gopher menu lines and gopher:// URLs
 R06d  each protocol maps the menu MIME type to its own listing type, totally
 Equality of rendered listings across protocols is not decided.
 """
@@ -57,6 +58,7 @@ def check(ctx, rep):
     rep.rule("R06b", "selectors reaching handler selection are slash-normalised; slashnormalize() yields a leading '/'", floor=5)
     rep.rule("R06c", "request text is decoded as UTF-8/surrogateescape everywhere (percent-decoding, query strings, request bodies)", floor=6)
     rep.rule("R06e", "URL-based renderers: relative link exactly when the entry names neither host nor port; otherwise entry.geturl()", floor=3)
+    rep.rule("R06f", "unset fields are completed alike by the Gopher menu line and gopher:// URLs (own host/port; other host -> port 70; no type -> 0)", floor=4)
     rep.rule("R06d", "menu MIME type mapped to the protocol's listing type; adjust function total", floor=4)
     pb = ctx.cls("protocols.base.BaseGopherProtocol")
     if pb is None:
@@ -277,6 +279,7 @@ def check(ctx, rep):
                     key=f"R06c|{h.qualname}|order")
 
     link_target_obligations(ctx, rep, "R06e")
+    default_target_obligations(ctx, rep, "R06f")
 
     # ------------------------------------------------------------------ R06d
     for P in protos:
@@ -397,3 +400,82 @@ def link_target_obligations(ctx, rep, rule="R06e"):
             problems.add("no path through the link renderer")
         rep.add(rule, f"{ro.qualname}: relative link exactly for entries without host and port", not problems, ctx.where(ro),
                 "; ".join(sorted(problems)[:3]), key=f"{rule}|{ro.qualname}")
+
+
+# ---------------------------------------------------------------------------- R06f
+def default_target_obligations(ctx, rep, rule="R06f"):
+    """Entries that leave a field unset are completed the same way by the Gopher menu line and by gopher:// URLs:
+    no host -> this server and its port; a host without a port -> port 70; no type -> '0'."""
+    prog = ctx.prog
+    plain = ctx.cls("protocols.rfc1436.GopherProtocol")
+    ge = ctx.cls("gopherentry.GopherEntry")
+    ro = prog.resolve_method(plain, "renderobjinfo") if plain else None
+    gu = prog.resolve_method(ge, "geturl") if ge else None
+    if ro is None or gu is None:
+        rep.fail(rule, "GopherProtocol.renderobjinfo / GopherEntry.geturl", detail="menu-line or URL renderer not found")
+        return
+    # menu line: the port default per host scenario
+    for host, want in ((None, "own"), ("other.example", 70)):
+        def cv(call, target, st, _h=host):
+            if isinstance(call.func, ast.Attribute) and call.func.attr == "gethost":
+                if _h is not None:
+                    return Const(_h)
+                if not call.args and not call.keywords:
+                    return Const(None)
+            return None
+        w = Walker(prog, ctx.resolver, call_value=cv)
+        seen = set()
+        for p in w.run(ro, plain):
+            for e in p.events:
+                if e.kind == "call" and isinstance(e.node.func, ast.Attribute) and e.node.func.attr == "getport":
+                    kws = (e.extra or {}).get("kws") or {}
+                    args = (e.extra or {}).get("args") or []
+                    d = kws.get("default") or (args[0] if args else None)
+                    dn = next((k.value for k in e.node.keywords if k.arg == "default"), e.node.args[0] if e.node.args else None)
+                    from ..facts import expand_ast
+
+                    dtext = norm(expand_ast(dn, ro, e.defs)) if dn is not None and e.defs else (norm(dn) if dn is not None else "")
+                    if d is not None and d.kind == "const":
+                        seen.add(d.value)
+                    elif "server_port" in dtext and "70" not in dtext:
+                        seen.add("own")
+                    elif "server_port" in dtext:
+                        seen.add("own" if host is None else "?")
+                    else:
+                        seen.add("?")
+        ok = seen == {want}
+        rep.add(rule, f"{ro.qualname}: missing port of an entry {'on this server' if host is None else 'naming another host'} -> {want}", ok, ctx.where(ro),
+                "" if ok else (f"the menu line fills a missing port with {sorted(map(str, seen))}; the URL-based renderers use "
+                               f"{'this server' if host is None else 'gopher://host:70/'} for the same entry"), key=f"{rule}|port|{host}")
+    # URL: default port argument of geturl callers is 70, type default equals the menu line's
+    tdefs = set()
+    for n in ast.walk(ro.node):
+        if isinstance(n, ast.Call) and isinstance(n.func, ast.Attribute) and n.func.attr == "gettype":
+            a = n.args[0] if n.args else next((k.value for k in n.keywords if k.arg == "default"), None)
+            tdefs.add(a.value if isinstance(a, ast.Constant) else None)
+    udefs = set()
+    for n in ast.walk(gu.node):
+        if isinstance(n, ast.Call) and isinstance(n.func, ast.Attribute) and n.func.attr == "gettype":
+            a = n.args[0] if n.args else next((k.value for k in n.keywords if k.arg == "default"), None)
+            udefs.add(a.value if isinstance(a, ast.Constant) else None)
+    ok = bool(tdefs) and tdefs == udefs and None not in tdefs
+    rep.add(rule, f"default type: menu line {sorted(map(str, tdefs))} = URL {sorted(map(str, udefs))}", ok, ctx.where(gu),
+            "" if ok else "an entry without a type is rendered with a different type character in gopher:// URLs than in the Gopher menu line "
+            "(None is formatted as the text 'None')", key=f"{rule}|type")
+    calls = []
+    from ..structure import helper_calls
+
+    for P in ctx.protocol_classes():
+        rr = P.methods.get("renderobjinfo")
+        if rr is None:
+            continue
+        # the link renderers (and helpers they delegate to): geturl() is reached there only for entries with a host or port
+        for m in [rr] + [g for g, _, _, _ in helper_calls(prog, ctx.resolver, rr, P, depth=2)]:
+            for n in ast.walk(m.node):
+                if isinstance(n, ast.Call) and isinstance(n.func, ast.Attribute) and n.func.attr == "geturl" and (m, n) not in calls:
+                    calls.append((m, n))
+    bad = [(m, n) for m, n in calls if not (len(n.args) >= 2 and isinstance(n.args[1], ast.Constant) and n.args[1].value == 70)
+           and not any(k.arg == "defaultport" and isinstance(k.value, ast.Constant) and k.value.value == 70 for k in n.keywords)
+           and not (len(n.args) < 2 and not any(k.arg == "defaultport" for k in n.keywords))]
+    rep.add(rule, f"{len(calls)} gopher:// URLs default to port 70", bool(calls) and not bad, ctx.where(bad[0][0], bad[0][1]) if bad else ctx.where(gu),
+            f"`{norm(bad[0][1])[:60]}` uses another default port than the Gopher menu line (70)" if bad else "", key=f"{rule}|urlport")
